@@ -526,38 +526,111 @@ static bool has_flonum2(Type *ty) {
   return has_flonum(ty, 8, 16, 0);
 }
 
-// Returns true if `ty` has a long double somewhere inside.
-static bool has_ldouble(Type *ty) {
-  if (ty->kind == TY_STRUCT || ty->kind == TY_UNION) {
-    for (Member *mem = ty->members; mem; mem = mem->next)
-      if (has_ldouble(mem->ty))
-        return true;
-    return false;
-  }
+// Classification of an aggregate of at most 16 bytes (psABI 3.2.3):
+// every eightbyte gets the merged class of the fields it contains.
+enum { CLS_NONE, CLS_INTEGER, CLS_SSE, CLS_X87, CLS_X87UP, CLS_MEMORY };
 
-  if (ty->kind == TY_ARRAY)
-    return has_ldouble(ty->base);
-  return ty->kind == TY_LDOUBLE;
+static int merge_class(int a, int b) {
+  if (a == b)
+    return a;
+  if (a == CLS_NONE)
+    return b;
+  if (b == CLS_NONE)
+    return a;
+  if (a == CLS_MEMORY || b == CLS_MEMORY)
+    return CLS_MEMORY;
+  if (a == CLS_INTEGER || b == CLS_INTEGER)
+    return CLS_INTEGER;
+  if (a == CLS_X87 || a == CLS_X87UP || b == CLS_X87 || b == CLS_X87UP)
+    return CLS_MEMORY;
+  return CLS_SSE;
+}
+
+// Merges the classes of `ty`, which starts `offset` bytes into the
+// outermost aggregate, into `cls`. A nested struct or union is an
+// aggregate of its own: it is classified first, and if that says
+// MEMORY, so is everything around it. Returns false for MEMORY.
+static bool classify(Type *ty, int offset, int cls[2]) {
+  if (offset >= 16)
+    return true;
+
+  switch (ty->kind) {
+  case TY_STRUCT:
+  case TY_UNION: {
+    int sub[2] = {CLS_NONE, CLS_NONE};
+    for (Member *mem = ty->members; mem; mem = mem->next)
+      if (mem->name || !mem->is_bitfield)
+        if (!classify(mem->ty, offset + mem->offset, sub))
+          return false;
+
+    if (sub[0] == CLS_MEMORY || sub[1] == CLS_MEMORY)
+      return false;
+    if (sub[1] == CLS_X87UP && sub[0] != CLS_X87)
+      return false;
+
+    cls[0] = merge_class(cls[0], sub[0]);
+    cls[1] = merge_class(cls[1], sub[1]);
+    return true;
+  }
+  case TY_ARRAY:
+    for (int i = 0; i < ty->array_len; i++)
+      if (!classify(ty->base, offset + ty->base->size * i, cls))
+        return false;
+    return true;
+  case TY_LDOUBLE:
+    cls[offset / 8] = merge_class(cls[offset / 8], CLS_X87);
+    if (offset / 8 == 0)
+      cls[1] = merge_class(cls[1], CLS_X87UP);
+    return true;
+  case TY_FLOAT:
+  case TY_DOUBLE:
+    cls[offset / 8] = merge_class(cls[offset / 8], CLS_SSE);
+    return true;
+  default:
+    cls[offset / 8] = merge_class(cls[offset / 8], CLS_INTEGER);
+    return true;
+  }
+}
+
+// Classifies `ty`; returns false if it is passed and returned in memory.
+static bool classify_aggregate(Type *ty, int cls[2]) {
+  cls[0] = cls[1] = CLS_NONE;
+  if (ty->size == 0 || ty->size > 16)
+    return false;
+  return classify(ty, 0, cls) && cls[0] != CLS_MEMORY && cls[1] != CLS_MEMORY;
 }
 
 // Returns true if `ty` is a struct, union or array that consists of
 // one long double and nothing else: class X87, returned in %st(0).
 static bool is_x87_aggregate(Type *ty) {
-  if (ty->size != 16)
+  int cls[2];
+  return classify_aggregate(ty, cls) && cls[0] == CLS_X87;
+}
+
+// Returns true if a value of struct or union type `ty` is returned in
+// a buffer of the caller (class MEMORY): it is larger than two
+// eightbytes, or a long double shares an eightbyte with a float or
+// double. (A long double that shares its eightbytes with integers,
+// which only a union can arrange, travels in integer registers.)
+bool is_returned_in_memory(Type *ty) {
+  int cls[2];
+  return ty->size > 0 && !classify_aggregate(ty, cls);
+}
+
+// Computes how many general-purpose and SSE registers a struct or union
+// of at most 16 bytes occupies when it is passed or returned in
+// registers. Returns false if it has to go to memory.
+static bool struct_reg_counts(Type *ty, int *gp, int *fp) {
+  // An aggregate of class X87 is returned in %st(0) but passed in memory.
+  int cls[2];
+  if (!classify_aggregate(ty, cls) || cls[0] == CLS_X87)
     return false;
 
-  if (ty->kind == TY_STRUCT || ty->kind == TY_UNION) {
-    if (!ty->members)
-      return false;
-    for (Member *mem = ty->members; mem; mem = mem->next)
-      if (mem->ty->kind != TY_LDOUBLE && !is_x87_aggregate(mem->ty))
-        return false;
-    return true;
-  }
-
-  if (ty->kind == TY_ARRAY)
-    return ty->base->kind == TY_LDOUBLE || is_x87_aggregate(ty->base);
-  return false;
+  bool fp1 = has_flonum1(ty);
+  bool fp2 = ty->size > 8 && has_flonum2(ty);
+  *fp = fp1 + fp2;
+  *gp = !fp1 + (ty->size > 8 && !fp2);
+  return true;
 }
 
 // How va_arg fetches a value of type `ty` (the __builtin_reg_class of
@@ -572,30 +645,12 @@ int va_arg_class(Type *ty) {
     return 1;
 
   if (ty->kind == TY_STRUCT || ty->kind == TY_UNION) {
-    if (ty->size == 0 || ty->size > 16 || has_ldouble(ty))
+    int gp, fp;
+    if (!struct_reg_counts(ty, &gp, &fp))
       return 2;
     return 4 + (has_flonum1(ty) ? 1 : 0) + (ty->size > 8 && has_flonum2(ty) ? 2 : 0);
   }
   return 2;
-}
-
-// Computes how many general-purpose and SSE registers a struct or union
-// of at most 16 bytes occupies when it is passed or returned in
-// registers. Returns false if it has to go to memory.
-static bool struct_reg_counts(Type *ty, int *gp, int *fp) {
-  if (ty->size == 0 || ty->size > 16)
-    return false;
-
-  // An aggregate with an x87 member (class X87 or, merged with
-  // anything else, MEMORY) is never passed in registers.
-  if (has_ldouble(ty))
-    return false;
-
-  bool fp1 = has_flonum1(ty);
-  bool fp2 = ty->size > 8 && has_flonum2(ty);
-  *fp = fp1 + fp2;
-  *gp = !fp1 + (ty->size > 8 && !fp2);
-  return true;
 }
 
 static void push_struct(Type *ty) {
@@ -667,7 +722,7 @@ static int push_args(Node *node) {
 
   // If the return type is a large struct/union, the caller passes
   // a pointer to a buffer as if it were the first argument.
-  if (node->ret_buffer && node->ty->size > 16)
+  if (node->ret_buffer && is_returned_in_memory(node->ty))
     gp++;
 
   // Load as many arguments to the registers as possible.
@@ -752,7 +807,7 @@ static int push_args(Node *node) {
 
   // If the return type is a large struct/union, the caller passes
   // a pointer to a buffer as if it were the first argument.
-  if (node->ret_buffer && node->ty->size > 16) {
+  if (node->ret_buffer && is_returned_in_memory(node->ty)) {
     println("  lea %d(%%rbp), %%rax", node->ret_buffer->offset);
     push();
   }
@@ -1129,7 +1184,7 @@ static void gen_expr(Node *node) {
 
     // If the return type is a large struct/union, the caller passes
     // a pointer to a buffer as if it were the first argument.
-    if (node->ret_buffer && node->ty->size > 16)
+    if (node->ret_buffer && is_returned_in_memory(node->ty))
       pop(argreg64[gp++]);
 
     for (Node *arg = node->args; arg; arg = arg->next) {
@@ -1199,7 +1254,7 @@ static void gen_expr(Node *node) {
 
     // If the return type is a small struct, a value is returned
     // using up to two registers.
-    if (node->ret_buffer && node->ty->size <= 16) {
+    if (node->ret_buffer && !is_returned_in_memory(node->ty)) {
       copy_ret_buffer(node->ret_buffer);
       println("  lea %d(%%rbp), %%rax", node->ret_buffer->offset);
     }
@@ -1605,7 +1660,7 @@ static void gen_stmt(Node *node) {
       switch (ty->kind) {
       case TY_STRUCT:
       case TY_UNION:
-        if (ty->size <= 16)
+        if (!is_returned_in_memory(ty))
           copy_struct_reg();
         else
           copy_struct_mem();
